@@ -27,7 +27,10 @@ Normals == {n \in (-3..3) \X (-3..3) \X (-3..3) : n # <<0, 0, 0>>}
 \* discs: cells (position, velocity, mass) around an origin; angular momentum of those strictly inside the sphere of radius^2 = r2
 Discs == { [cells |-> << [p |-> <<2,0,0>>, v |-> <<0,3,0>>, m |-> 1], [p |-> <<-2,0,0>>, v |-> <<0,-3,0>>, m |-> 2], [p |-> <<0,2,1>>, v |-> <<-1,0,0>>, m |-> 1], [p |-> <<9,9,9>>, v |-> <<5,-7,3>>, m |-> 50] >>, o |-> <<0,0,0>>, r2 |-> 25, o2 |-> <<8,8,8>>],
            [cells |-> << [p |-> <<5,1,0>>, v |-> <<0,0,2>>, m |-> 3], [p |-> <<3,1,2>>, v |-> <<1,1,0>>, m |-> 1], [p |-> <<4,4,0>>, v |-> <<-2,0,1>>, m |-> 2], [p |-> <<4,1,10>>, v |-> <<9,9,9>>, m |-> 9] >>, o |-> <<4,1,0>>, r2 |-> 16, o2 |-> <<4,1,8>>],
-           [cells |-> << [p |-> <<1,0,0>>, v |-> <<0,0,1>>, m |-> 1], [p |-> <<0,1,0>>, v |-> <<0,0,-1>>, m |-> 1], [p |-> <<0,0,1>>, v |-> <<1,1,0>>, m |-> 4] >>, o |-> <<0,0,0>>, r2 |-> 4, o2 |-> <<0,0,1>>] }
+           [cells |-> << [p |-> <<1,0,0>>, v |-> <<0,0,1>>, m |-> 1], [p |-> <<0,1,0>>, v |-> <<0,0,-1>>, m |-> 1], [p |-> <<0,0,1>>, v |-> <<1,1,0>>, m |-> 4] >>, o |-> <<0,0,0>>, r2 |-> 4, o2 |-> <<0,0,1>>],
+           \* a disc lying in the xy plane: its angular momentum is exactly along z (and along -z for the mirrored one)
+           [cells |-> << [p |-> <<2,0,0>>, v |-> <<0,3,0>>, m |-> 1], [p |-> <<-2,0,0>>, v |-> <<0,-3,0>>, m |-> 2], [p |-> <<8,8,9>>, v |-> <<0,5,-7>>, m |-> 50] >>, o |-> <<0,0,0>>, r2 |-> 25, o2 |-> <<8,8,8>>],
+           [cells |-> << [p |-> <<2,0,0>>, v |-> <<0,-3,0>>, m |-> 1], [p |-> <<-2,0,0>>, v |-> <<0,3,0>>, m |-> 2], [p |-> <<8,8,9>>, v |-> <<0,5,-7>>, m |-> 50] >>, o |-> <<0,0,0>>, r2 |-> 25, o2 |-> <<8,8,8>>] }
 RECURSIVE LSum(_, _, _)
 LSum(cells, o, r2) == IF cells = <<>> THEN <<0, 0, 0>> ELSE
    LET c == Head(cells)  r == <<c.p[1] - o[1], c.p[2] - o[2], c.p[3] - o[3]>>  rest == LSum(Tail(cells), o, r2)
